@@ -244,4 +244,37 @@ def handleE2E : Handler := fun s =>
     some { corr := none, oracle := some oracle, nontrivial := nt, cls := cls, tags := tags, detail := detail }
   r.getD (badInput "c20e2e: cannot parse case")
 
+/-! ## c20unicode -/
+
+def handleUnicode : Handler := fun s =>
+  let r : Option Verdict := do
+    let radix ← (← s.field1? "radix").asNat?
+    let expected ← (← s.field? "codepoints").mapM Sexp.asNat?
+    let variants ← (← s.field? "variants").mapM fun v =>
+      match v with
+      | .list [.atom n, t] => (fun (x : String) => (n, x)) <$> t.asString?
+      | _ => none
+    let impls ← s.field? "impl"
+    if variants.length != impls.length then none
+    let okOf (l : List Nat) : Sexp := .list (.atom "ok" :: (l.mergeSort (· ≤ ·)).eraseDups.map Sexp.ofNat)
+    let model (t : String) : Sexp :=
+      match typedUnicodeRaw t.toList with
+      | none => .atom "err"
+      | some raw =>
+        match codepoints radix raw with
+        | none => .atom "panic"
+        | some l => okOf l
+    let bad := ((variants.zip impls).filter fun (v, i) => model v.2 != i).map (·.1.1)
+    let corr := bad.isEmpty
+    let want := okOf expected
+    let sens := ((variants.zip impls).filter fun (_, i) => i != want).map (·.1.1)
+    let oracle := sens.isEmpty
+    let cls := if !oracle then "unicode-layout-sensitive" else if !corr then "unicode-model-disagrees" else ""
+    let detail :=
+      if !oracle then s!"layouts of the same tokens that do not read as {want}: {sens}"
+      else if !corr then s!"model differs on {bad}" else ""
+    some { corr := some corr, oracle := some oracle, nontrivial := expected.length ≥ 2, cls := cls,
+           tags := [s!"radix{radix}", s!"codepoints{expected.length}"], detail := detail }
+  r.getD (badInput "c20unicode: cannot parse case")
+
 end Fontc.Driver.C20
